@@ -62,14 +62,14 @@ func (w *world) sharedReceiverFactory(typ string) receiver.Factory {
 	m := sharedcomponent.NewMap[component.ID, *sharedInner]()
 	mk := func(sig string, set receiver.Settings, next any) (*sharedNode, error) {
 		comp, err := m.LoadOrStore(set.ID, func() (*sharedInner, error) {
-			in := &sharedInner{base{w: w, k: "shared", id: set.ID.String(), inst: w.inst()}}
+			in := &sharedInner{base{w: w, k: "shared", id: w.mid(set.ID), inst: w.inst()}}
 			w.log(in.ev("create"))
 			return in, nil
 		})
 		if err != nil {
 			return nil, err
 		}
-		n := &sharedNode{base: base{w: w, k: "receiver", id: set.ID.String(), sig: sig, inst: w.inst()}, comp: comp}
+		n := &sharedNode{base: base{w: w, k: "receiver", id: w.mid(set.ID), sig: sig, inst: w.inst()}, comp: comp}
 		w.log(n.ev("create"))
 		w.mu.Lock()
 		w.receivers = append(w.receivers, &rcvInst{id: n.id, sig: sig, next: next})
